@@ -7,8 +7,16 @@ REAL = ["core (Location, IndexedState, LinearState, PatternIndex, TermIndex, que
 STUB_COMMON = ["SimStorage wrapper (journal, latency, error and crash injection) around the real back end",
                "fake clock of testing/synctest (go1.26.8)"]
 
-def tiers(q_runs, q_budget, t_runs, t_budget, **kw):
-    return {"quick": dict(runs=q_runs, budget_s=q_budget, **kw), "thorough": dict(runs=t_runs, budget_s=t_budget, **kw)}
+def tiers(q_runs, q_budget, t_runs, t_budget, race=None, **kw):
+    """race=(quick runs, quick budget, thorough runs, thorough budget[, worlds]) adds a second phase: the same
+    worlds in a -race binary under the pipe-gate scheduler (see sim/simrt)."""
+    q = dict(runs=q_runs, budget_s=q_budget, **kw)
+    t = dict(runs=t_runs, budget_s=t_budget, **kw)
+    if race:
+        w = list(race[4]) if len(race) > 4 else None
+        q["race"] = dict(runs=race[0], budget_s=race[1], worlds=w)
+        t["race"] = dict(runs=race[2], budget_s=race[3], worlds=w)
+    return {"quick": q, "thorough": t}
 
 PROPS = {
     "C02": {
@@ -199,14 +207,14 @@ PROPS = {
     "C17": {
         "level": "exploration",
         "build": "instr",
-        "tiers": tiers(1500, 60, 40000, 900),
+        "tiers": tiers(1500, 60, 40000, 900, race=(600, 90, 20000, 900, ["firstload"])),
         "rule": "world twins: one request history (3-4 created locations plus a never-created one, 20-40 requests - AddFact with ttl/deleteWith, RemFact, GetFact, "
                 "SearchFacts own/inherited, AddRule with and without condition, RemRule, EnableRule, ProcessEvent, SetParents, Clear - and sleeps of 0.5 ms to 4 s) "
                 "executed in seven engines at once: bare core.Locations (no cache) and sys.System with cache TTL in {never, 1 ms, forever} x CheckExistence in "
                 "{off, on}, each over its own SimStorage and persistent SimCron; every request must return the same normalised result in all of them; with "
                 "existence checking a request to the never-created location must fail, leave no storage record and no cache entry. World firstload "
                 "(instrumented build): N concurrent first requests for one location under scheduler control cause exactly one Storage.Load. "
-                "Non-trivial: every request; distinct = distinct (operation, result) pairs.",
+                "Non-trivial: every request; distinct = distinct (operation, result) pairs. Race phase: the same plans' worlds are executed again in a binary built with -race whose scheduler hands the token over through pipes with raw system calls (no happens-before edge from the scheduler): execution stays serial and tape-driven, and every pair of conflicting accesses that rulio's own synchronisation does not order in the simulated schedule is reported as a data-race violation (replayable, minimised).",
         "components": {"real": ["sys.System incl. CachedLocations", "core", "cron.AddHooks"], "stub": STUB_COMMON + ["SimCron (persistent Cronner)"]},
         "assumptions": ["generated ids are compared as 'generated'", "the created-marker property is not searched for"],
     },
@@ -245,7 +253,7 @@ PROPS = {
     "C12": {
         "level": "exploration",
         "build": "instr",
-        "tiers": tiers(3000, 90, 100000, 1200, gomaxprocs=4),
+        "tiers": tiers(3000, 90, 100000, 1200, gomaxprocs=4, race=(1500, 90, 40000, 900)),
         "distinct_measure": "distinct (operation list, pre-emption points, number of task switches) triples, i.e. distinct interleavings actually executed",
         "rule": "2-8 simulated clients issue 1-4 operations each (at most 14 in all) - AddFact/RemFact/GetFact/SearchFacts on 3 shared fact ids with unique values, "
                 "AddRule/RemRule/EnableRule on 2 shared rule ids, ProcessEvent - against one location (indexed or linear state, memory storage behind SimStorage). "
@@ -254,30 +262,30 @@ PROPS = {
                 "the seed (PCT style, placed by a dry run) move the token at lock and storage yield points. The history, stamped with the simulator's event "
                 "sequence numbers and closed by final reads of every id from memory and from storage, is checked with Porcupine against the sequential "
                 "reference model (20 s limit; a time-out is counted as inconclusive, never reported). Deadlock (no runnable task), a task panic and a step "
-                "budget overrun are violations. Non-trivial: the run switched tasks at least once; distinct as in distinct_measure.",
+                "budget overrun are violations. Non-trivial: the run switched tasks at least once; distinct as in distinct_measure. Race phase: the same plans' worlds are executed again in a binary built with -race whose scheduler hands the token over through pipes with raw system calls (no happens-before edge from the scheduler): execution stays serial and tape-driven, and every pair of conflicting accesses that rulio's own synchronisation does not order in the simulated schedule is reported as a data-race violation (replayable, minimised).",
         "components": {"real": REAL + ["rulio's own goroutines (rule actions) as simulator tasks"], "stub": ["simrt token scheduler (instrumentation of sync/go/WaitGroup/map range by tools/instr)", "SimStorage wrapper with yield points", "JavaScript time-outs switched off (the watchdog's select is not under scheduler control)"]},
         "assumptions": ["the instrumenter's rewrites preserve behaviour (all other checks run uninstrumented code and agree on the fault-free sequential fragment)",
-                        "data races that do not change any result are outside what this world sees (no race detector in this tier)"],
+                        "the race phase sees only accesses that happen in the simulated schedules (it is the detector applied to those executions, not a proof of race freedom)"],
     },
     "C11": {
         "level": "exploration",
         "build": "instr",
-        "tiers": tiers(2500, 90, 80000, 1200, gomaxprocs=4),
+        "tiers": tiers(2500, 90, 80000, 1200, gomaxprocs=4, race=(1200, 90, 30000, 900)),
         "distinct_measure": "distinct (operation lists, pre-emption points, number of task switches) triples, i.e. distinct interleavings executed",
         "rule": "2-6 simulated clients, client i owning location own<i> of one sys.System (cache TTL forever or never, indexed or linear state, one shared "
                 "SimStorage over core.MemStorage), each issuing 3-8 requests (AddFact, RemFact, GetFact, SearchFacts, AddRule whose action adds a fact, RemRule, "
                 "ProcessEvent, Clear) starting with the very first requests after the engine is built; all clients start together, the token scheduler orders "
                 "them at lock and storage yield points with 0-4 seeded pre-emptions. Judged: each client's results equal those of its sequence run alone on a "
                 "fresh engine (self-differential), each location's final facts, rules and stored ids equal the solo run's, no deadlock, task panic or step "
-                "budget overrun. Non-trivial: at least one task switch; distinct as in distinct_measure.",
+                "budget overrun. Non-trivial: at least one task switch; distinct as in distinct_measure. Race phase: the same plans' worlds are executed again in a binary built with -race whose scheduler hands the token over through pipes with raw system calls (no happens-before edge from the scheduler): execution stays serial and tape-driven, and every pair of conflicting accesses that rulio's own synchronisation does not order in the simulated schedule is reported as a data-race violation (replayable, minimised).",
         "components": {"real": ["sys.System incl. location cache", "core", "rule-action goroutines as simulator tasks"], "stub": ["simrt token scheduler (instrumented sync/go/WaitGroup/map range)", "SimStorage wrapper with yield points", "SimCron"]},
-        "assumptions": ["System.ensureStorage has no yield point inside (no lock, no call-out): its unsynchronised check-then-set cannot be interleaved by this scheduler; no race detector in this tier",
+        "assumptions": ["System.ensureStorage has no yield point inside (no lock, no call-out): its unsynchronised check-then-set cannot be interleaved by this scheduler (the race phase would report it if two tasks reached it unordered)",
                         "requests go through sys.System (the HTTP handler adds only per-request contexts)"],
     },
     "C04": {
         "level": "exploration",
         "build": "instr",
-        "tiers": tiers(2500, 90, 80000, 1200, gomaxprocs=4),
+        "tiers": tiers(2500, 90, 80000, 1200, gomaxprocs=4, race=(1200, 90, 30000, 900)),
         "distinct_measure": "distinct (rule set and events, pre-emption points, number of task switches) triples",
         "rule": "a location with 0-6 facts and 0-4 rules: `when` patterns with an array variable (one binding per element of the event's array), a variable or a "
                 "constant; conditions yielding 0-3 bindings (pattern, pattern joined on the event variable, and-with-code); 1-3 actions per rule from a template "
@@ -286,7 +294,7 @@ PROPS = {
                 "concurrent simulated clients; every action goroutine is a simulator task, ordered and pre-empted (0-3 PCT points, inside AddFact too) by the "
                 "tape; map iteration order from the tape. Judged against the reference (when-match x condition x actions): the multiset of action nodes "
                 "(rule, bindings, action, disposition, value), the `values` list, and the number of stored execution facts; failing actions are non-complete on "
-                "their own node and change nothing else. Non-trivial: at least one action executed; distinct as in distinct_measure.",
+                "their own node and change nothing else. Non-trivial: at least one action executed; distinct as in distinct_measure. Race phase: the same plans' worlds are executed again in a binary built with -race whose scheduler hands the token over through pipes with raw system calls (no happens-before edge from the scheduler): execution stays serial and tape-driven, and every pair of conflicting accesses that rulio's own synchronisation does not order in the simulated schedule is reported as a data-race violation (replayable, minimised).",
         "components": {"real": REAL + ["WorkWalk and its action goroutines as simulator tasks", "otto"], "stub": ["simrt token scheduler (instrumented build)", "SimStorage wrapper with yield points"]},
         "assumptions": ["core.Matches as matching primitive", "JavaScript time-outs off (the watchdog's select is outside scheduler control)"],
     },
